@@ -24,8 +24,8 @@ def handle (ts : List String) : Option String :=
       | none => some "err"
     | _ => none
   -- the real callers (cluster, verify, makesync) on a file none of whose leaf directories can be fetched: the
-  -- enumeration fails (`iterate_fails_when_unfetchable`), so each of them reports it and nothing is rewritten
-  | "callers" :: _ => some "cluster=err-unchanged verify=err makesync=err"
+  -- enumeration fails (`C17.iterate_fails_at`), so each of them reports it and nothing is rewritten
+  | "callers" :: _ => some "cluster=err-unchanged verify=err makesync=err syncfile=none"
   | _ => none
 
 end Driver.C17
